@@ -4,6 +4,7 @@
 // A case = inventory (filesystem packages, standalone packages; with and without purl) + 0..4 fake
 // detectors (finding lists with shared/distinct advisory IDs, equal/unequal bodies, nil advisory, nil
 // ID, errors, optional context cancellation, optional *Finding pointers shared between detectors).
+// Also observed: the detectors' own Finding values after Run (Run must tag copies, not write through the pointers).
 // Observed: every Scan call (detector, the index it was handed: GetSpecific for every (type,name) of
 // the universe, GetAllOfType, GetAll), findings with their Detectors tag, plugin statuses, error /
 // ScanResult.Status.
@@ -92,11 +93,17 @@ type jstatus struct {
 	Version int    `json:"version"`
 	Status  uint64 `json:"status"`
 }
+type jheap struct {
+	Ptr  uint64   `json:"ptr"`
+	Dets []uint64 `json:"detectors"`
+}
 type jrun struct {
 	Calls    []jcall   `json:"calls"`
 	Findings []jtagged `json:"findings"`
 	Status   []jstatus `json:"status"`
 	Err      string    `json:"err"` // none | ctx | other
+	// the Detectors field of the detectors' OWN Finding values after Run (per pointer, sorted)
+	Heap []jheap `json:"own_findings_after"`
 }
 type jscan struct {
 	Calls    []jcall   `json:"calls"`
@@ -539,6 +546,11 @@ func readStatus(ss []*plugin.Status) []jstatus {
 
 // fresh detectors (and a fresh heap of findings) for one execution
 func mkDets(c *jcase, tr *trace) []detector.Detector {
+	ds, _ := mkDetsHeap(c, tr)
+	return ds
+}
+
+func mkDetsHeap(c *jcase, tr *trace) ([]detector.Detector, map[uint64]*detector.Finding) {
 	heap := map[uint64]*detector.Finding{}
 	for _, d := range c.Dets {
 		for _, r := range d.Results {
@@ -551,7 +563,7 @@ func mkDets(c *jcase, tr *trace) []detector.Detector {
 	for _, d := range c.Dets {
 		out = append(out, &fakeDet{d: d, heap: heap, tr: tr})
 	}
-	return out
+	return out, heap
 }
 
 // ------------------------------------------------------------------------------------------------ execution
@@ -579,8 +591,21 @@ func execRun(c *jcase) *jrun {
 		panic(err)
 	}
 	root := &scalibrfs.ScanRoot{FS: fstest.MapFS{}, Path: ""}
-	findings, status, err := detector.Run(ctx, stats.NoopCollector{}, mkDets(c, tr), root, px)
-	r := &jrun{Calls: tr.calls, Findings: []jtagged{}, Status: readStatus(status), Err: "none"}
+	dets, heap := mkDetsHeap(c, tr)
+	findings, status, err := detector.Run(ctx, stats.NoopCollector{}, dets, root, px)
+	r := &jrun{Calls: tr.calls, Findings: []jtagged{}, Status: readStatus(status), Err: "none", Heap: []jheap{}}
+	var ps []uint64
+	for p := range heap {
+		ps = append(ps, p)
+	}
+	sort.Slice(ps, func(i, j int) bool { return ps[i] < ps[j] })
+	for _, p := range ps {
+		h := jheap{Ptr: p, Dets: []uint64{}}
+		for _, d := range heap[p].Detectors {
+			h.Dets = append(h.Dets, plugID(d))
+		}
+		r.Heap = append(r.Heap, h)
+	}
 	if r.Calls == nil {
 		r.Calls = []jcall{}
 	}
@@ -714,7 +739,11 @@ func caseCoq(c *jcase) string {
 		dets[i] = detCoq(d)
 	}
 	errs := map[string]string{"none": "None", "ctx": "(Some ErrCtx)", "other": "(Some ErrAdvisory)"}
-	run := fmt.Sprintf("(mkRunObs %s %s %s %s)", callsCoq(c.Run.Calls), taggedCoq(c.Run.Findings), statusCoq(c.Run.Status), errs[c.Run.Err])
+	hp := make([]string, len(c.Run.Heap))
+	for i, h := range c.Run.Heap {
+		hp[i] = fmt.Sprintf("(%s, %s)", cf.N(h.Ptr), ids(h.Dets))
+	}
+	run := fmt.Sprintf("(mkRunObs %s %s %s %s %s)", callsCoq(c.Run.Calls), taggedCoq(c.Run.Findings), statusCoq(c.Run.Status), errs[c.Run.Err], cf.List(hp))
 	scan := "None"
 	if c.Scan != nil {
 		scan = fmt.Sprintf("(Some (mkScanObs %s %s %s %s %s))", callsCoq(c.Scan.Calls), taggedCoq(c.Scan.Findings), statusCoq(c.Scan.Status), cf.Bool(c.Scan.Failed), ids(c.Scan.Packages))
